@@ -44,6 +44,7 @@ type xStmt struct {
 	HasArg bool
 	Shows  []string // showall: names displayed
 	Multi  bool     // rendered as an expression statement that spans two physical lines
+	ArgBad bool     // the call's argument expression itself raises (1 / 0): the callee never runs
 	Line   int    // physical line (1-based) assigned by the renderer
 }
 
@@ -400,6 +401,9 @@ func (g *xGen) stmtsIn(b *xBody, fs []*xBody, cs []*xClass, n int, depth int, to
 			if f.Recur {
 				st.Arg = g.t.Draw(4) // recursion depth 0..3
 			}
+			if st.HasArg && g.t.Draw(10) == 9 {
+				st.ArgBad = true
+			}
 			// one call in four is the second argument of a 显示 that continues on the next line
 			st.Multi = g.t.Draw(4) == 3
 			out = append(out, st)
@@ -554,6 +558,9 @@ func (x *xRender) stmts(indent int, ss []*xStmt) {
 			call := "（" + s.Fn + "）"
 			if s.HasArg {
 				call = fmt.Sprintf("（%s：%d）", s.Fn, s.Arg)
+			}
+			if s.ArgBad {
+				call = fmt.Sprintf("（%s：%d / 0）", s.Fn, s.Arg)
 			}
 			if s.Multi {
 				s.Line = x.emit(indent, fmt.Sprintf("（显示：“%s=”、\n%s%s）", s.Var, strings.Repeat("\t", indent+1), call))
@@ -863,6 +870,9 @@ func (m *xRef) run(ss []*xStmt) (ret *xVal, ex *xRaise) {
 				fr.line = s.Line
 			}
 		case "callf":
+			if s.ArgBad {
+				return nil, m.raise("异常", "被除数不得为0", "div0")
+			}
 			v, e := m.call(m.funcs[s.Fn], nil, s)
 			if e != nil {
 				return nil, e
